@@ -9,7 +9,13 @@ tmp=$(mktemp -d /var/tmp/verif-rebase.XXXXXX)
 trap 'rm -rf "$tmp"' EXIT
 for p in seeded/*/patch.diff seeds/own/*.diff seeds/neutral/*.diff; do
   rm -rf $tmp/repo; rsync -a --exclude .git /repo/ $tmp/repo/
-  if (cd $tmp/repo && git init -q . >/dev/null 2>&1 && git apply --check "/verif/$p" 2>/dev/null); then continue; fi
+  if (cd $tmp/repo && git init -q . >/dev/null 2>&1 && git apply --check "/verif/$p" 2>/dev/null); then
+    # with --build: a patch that still applies must also still compile (a fix may have changed a type it uses)
+    if [ "$1" = "--build" ]; then
+      (cd $tmp/repo && git apply "/verif/$p" && go build ./... >/dev/null 2>&1) || echo "APPLIES BUT DOES NOT BUILD $p"
+    fi
+    continue
+  fi
   (cd $tmp/repo && git add -A >/dev/null 2>&1 && git -c user.email=a@b -c user.name=x commit -qm base >/dev/null 2>&1)
   if (cd $tmp/repo && patch -p1 -F3 -s < "/verif/$p" >/dev/null 2>&1 && go build ./... >/dev/null 2>&1); then
     case "$p" in */patch.diff) [ -f "${p%patch.diff}patch.orig.diff" ] || cp "$p" "${p%patch.diff}patch.orig.diff";; esac
